@@ -66,7 +66,7 @@ def _aclose(ip, it):
 class BorrowProtocol:
     """C07: histories over {next(B), next(U) by the owner, close(B), close(iter(B)), tool(B), re-borrow}"""
     def available(self, H):
-        ops = ["next(B)", "next(U)", "close(B)", "close(iter(B))", "tool(B)"]
+        ops = ["next(B)", "next(U)", "close(B)", "close(iter(B))", "tool(B)", "athrow(B)"]
         if "B2" not in H:
             ops.append("reborrow")
         else:
@@ -82,6 +82,19 @@ class BorrowProtocol:
             return (yield from _pull(ip, H["B2"]))
         if op == "next(U)":
             return (yield from ip.pull(U, sync=(ip.side == "ref")))
+        if op == "athrow(B)":
+            env = ip.env
+            if "thrown" not in env.block_exc:
+                env.block_exc["thrown"] = ExcVal("UserError2", ident=("thrown",), origin="env")
+            e = env.block_exc["thrown"]
+            if ip.side == "impl":
+                try:
+                    m = ip.getattr(B, "athrow")
+                except PyRaise:
+                    raise PyRaise(e)        # a handle without athrow: the exception simply stays with the caller
+                r = yield from ip.call(m, [e], {})
+                return (yield from ip.await_(r))
+            return (yield from ip.call(ip.getattr(B, "throw"), [e], {}))
         if op == "close(B)":
             yield from _aclose(ip, B)
             return None
@@ -205,7 +218,7 @@ class ScopedProtocol:
 def _borrow_jobs():
     AT, RA = "asynctools", "ref_asynctools"
     out = []
-    for kind in ("gen", "class", "sync"):
+    for kind in ("gen", "class", "sync", "throwonly"):
         def mk(ctx, env, kind=kind):
             s = env.source("a", has_aclose=(kind != "sync"), kind=kind)
             return dict(iargs=[s], rargs=[s])
@@ -215,7 +228,8 @@ def _borrow_jobs():
           out.append(Job(f"borrow[{kind}]", (AT, "borrow"), (RA, "borrow"), mk, kind="protocol", props=("C07",), faults=False, closes=False, release=False,
                        opts={"protocol": BorrowProtocol(), "handles": {"mk": ((AT, "borrow"), (RA, "borrow")), "tool": (("builtins", "enumerate"), None)},
                              "under_contract": [(AT, "borrow"), (AT, "_BorrowedAsyncIterator")]}))
-        out.append(Job(f"scoped_iter[{kind}]", (AT, "scoped_iter"), (RA, "scoped_iter"), mk, kind="protocol", props=("C08", "C18"), faults=False, closes=False, release=False,
+        if kind != "throwonly":
+          out.append(Job(f"scoped_iter[{kind}]", (AT, "scoped_iter"), (RA, "scoped_iter"), mk, kind="protocol", props=("C08", "C18"), faults=False, closes=False, release=False,
                        overrides="none",
                        opts={"protocol": ScopedProtocol(), "handles": {"mk": ((AT, "scoped_iter"), (RA, "scoped_iter")), "tool": (("builtins", "enumerate"), None)},
                              "under_contract": [(AT, "scoped_iter"), (AT, "_ScopedAsyncIteratorContext"), (AT, "_ScopedAsyncIterator"), (AT, "_BorrowedAsyncIterator")]}))
